@@ -395,6 +395,25 @@ var ignoreTime bool
 // SecuritySource supplies a non-empty credential, every SecurityHandler accepts.
 func securityAware(p *reg.Package, inner reg.CallFn) reg.CallFn {
 	return func(ctx context.Context, iface, method string, args []any) ([]any, error) {
+		if iface == reg.IfaceHandler && method == "NewError" {
+			// convenient errors: build the error response the way a user's NewError would
+			for _, m := range p.Interfaces[reg.IfaceHandler] {
+				if m.Name == "NewError" && len(m.Results) > 0 && m.Results[0].Kind() == reflect.Pointer {
+					v := reflect.New(m.Results[0].Elem())
+					if f := v.Elem().FieldByName("StatusCode"); f.IsValid() && f.CanSet() && f.Kind() == reflect.Int {
+						code := 500
+						if len(args) > 0 {
+							if e, ok := args[0].(error); ok && e != nil {
+								code = ogenerrors.ErrorCode(e) // what a typical NewError implementation does
+							}
+						}
+						f.SetInt(int64(code))
+					}
+					return []any{v.Interface()}, nil
+				}
+			}
+			return nil, nil
+		}
 		switch iface {
 		case reg.IfaceSecurityHandler:
 			return []any{ctx}, nil
